@@ -119,6 +119,7 @@ def check_program(item):
 
 def _pack(out):
     out["states"] = len(out.pop("prefixes"))
+    out["nontrivial"] = 1 if len(out["types"]) >= 2 else 0
     return out
 
 
@@ -126,7 +127,7 @@ def run(ctx):
     items = [(idx, prog, ctx.tier) for idx, prog in gd.c12_programs(ctx.tier)]
     items += [(idx, prog, ctx.tier) for idx, prog in gd.c12_modular_programs(ctx.tier, start_index=len(items))]
     items = ctx.rotate(items)
-    runs = states = edges = progs = sched_dev = 0
+    runs = states = edges = progs = sched_dev = nontrivial = 0
     types = {}
     for r in ctx.pmap(check_program, items, chunksize=4):
         progs += 1
@@ -134,6 +135,7 @@ def run(ctx):
         states += r["states"]
         edges += r["edges"]
         sched_dev += r["sched_dev"]
+        nontrivial += r.get("nontrivial", 0)
         for k, v in r["types"].items():
             types[k] = types.get(k, 0) + v
         for sig, desc, case in r["violations"]:
@@ -151,12 +153,12 @@ def run(ctx):
         traces_validated_against_impl=runs,
         evaluations=runs,
         programs=progs,
-        distinct_nontrivial=sum(1 for k in types if types[k]),
+        distinct_nontrivial=nontrivial,
         rule="all behavior bodies up to the length bound over the statement alphabet x top-level termination constructs x "
         "truth tables with <=2 conditions firing (at every step 0..5) x timestep/maxSteps variants x all agent schedules with <=2 "
         "non-default permutations; states = distinct event-history prefixes at time-step boundaries, transitions = time steps "
-        "executed; every run's full event trace and result is compared with the reference machine; distinct_nontrivial counts "
-        "distinct termination kinds observed",
+        "executed; every run's full event trace and result is compared with the reference machine; distinct_nontrivial = programs "
+        "whose explored runs end in at least two different ways (termination kind / rejection)",
         samples=samples,
         outcome_kinds=types,
         runs_with_nondefault_schedule=sched_dev,
